@@ -154,6 +154,8 @@ def run(repo, rep, tier):
                 [k.value for k in c.keywords]) for c in toks)
         rep.check(okf, "R19.3", tq, "tokens are stamped with the file name",
                   construct="token-filename-forwarded", where=L.where(tf))
+    from . import c11 as _c11
+    _c11.filename_chain(repo, rep, "R19.3")
     L.state_rule(repo, rep)
 
 
